@@ -47,7 +47,6 @@ theorem inline_flat (cfg : Config) (doc : SchemaDoc) (hc : genCfg cfg) (f : Nat)
     primitiveInt, StateT.run, bind, StateT.bind, pure, StateT.pure, get, getThe, MonadStateOf.get, StateT.get, modify, modifyGet, MonadStateOf.modifyGet, StateT.modifyGet, Except.bind, Except.pure, Except.map]
 
 
-def propOf (t : Schema) (name : String) : Schema := (alookup name t.node.props).getD default
 
 def ftyOf (t : Schema) (name : String) : GoTy :=
   if t.node.required.contains name then scalarTy (propOf t name) else .ptr (scalarTy (propOf t name))
